@@ -51,8 +51,8 @@ var (
 	cJ, cI  *big.Int
 	keyObj  [maxN]crypto.PublicKey
 	keyRepr [maxN]string
-	idObj   [3]crypto.PublicKey
-	idRepr  = [3]string{"identity-const", "identity-decoded", "identity-aggregate(c,-c)"}
+	idObj   [5]crypto.PublicKey
+	idRepr  = [5]string{"identity-const", "identity-decoded", "identity-aggregate(c,-c)", "identity-aggregate-private(c,-c)", "identity-remove(c,[c])"}
 )
 
 func mod(k *big.Int) *big.Int { return new(big.Int).Mod(k, refbls.R) }
@@ -90,6 +90,14 @@ func mkKey(k *big.Int, repr string) crypto.PublicKey {
 		pk = crypto.IdentityBLSPublicKey()
 	case "identity-aggregate(c,-c)":
 		pk, err = crypto.AggregateBLSPublicKeys([]crypto.PublicKey{libPK(cI), libPK(new(big.Int).Neg(cI))})
+	case "identity-aggregate-private(c,-c)":
+		var ask crypto.PrivateKey
+		ask, err = crypto.AggregateBLSPrivateKeys([]crypto.PrivateKey{libSK(mod(cI)), libSK(mod(new(big.Int).Neg(cI)))})
+		if err == nil {
+			pk = ask.PublicKey()
+		}
+	case "identity-remove(c,[c])":
+		pk, err = crypto.RemoveBLSPublicKeys(libPK(cI), []crypto.PublicKey{libPK(cI)})
 	default:
 		run.Fatal("unknown key representation %q", repr)
 	}
@@ -475,7 +483,7 @@ func (c *bcase) keys() ([]crypto.PublicKey, []string) {
 	rs := make([]string, c.n)
 	for i := 0; i < c.n; i++ {
 		if c.idKey[i] {
-			pks[i], rs[i] = idObj[i%3], idRepr[i%3]
+			pks[i], rs[i] = idObj[(i+c.n)%len(idObj)], idRepr[(i+c.n)%len(idObj)]
 		} else {
 			pks[i], rs[i] = keyObj[i], keyRepr[i]
 		}
@@ -554,7 +562,7 @@ func evaluate(c *bcase, reader string, withVerify bool, st *stats) {
 		for i := 0; i < c.n; i++ {
 			ck := fmt.Sprintf("%d|%v|%x", i, c.idKey[i], c.sigs[i])
 			if c.idKey[i] {
-				ck = fmt.Sprintf("%d|id%d|%x", i, i%3, c.sigs[i])
+				ck = fmt.Sprintf("%d|id%d|%x", i, (i+c.n)%len(idObj), c.sigs[i])
 			}
 			if v, ok := verifyCache.Load(ck); ok {
 				ver[i] = v.(bool)
@@ -951,7 +959,7 @@ func main() {
 	run.Set("rule", "n = 1..nMax signers of one message; ALL 2^n subsets S of invalid positions x kinds of invalidity applied to S: "+
 		"13 simple kinds (other G1 point, negated, 3 malformed encodings, s+T of order 3 / cofactor, lengths 0/47/49, identity key, identity signature, both), a mix of kinds by position, "+
 		"a valid signature of another signer (outside the list, neighbour, cyclic rotation inside S), and for EVERY pair / triple inside S a swapped pair, a cancelling pair s_i+D, s_j-D and a cancelling triple "+
-		"(rest of S filled with other G1 points and, separately, with mixed kinds). Keys are held in derived / decoded / Jacobian representations; identity keys in 3 variants. "+
+		"(rest of S filled with other G1 points and, separately, with mixed kinds). Keys are held in derived / decoded / Jacobian representations; identity keys in 5 variants (constant, decoded, aggregated public keys, public key of an aggregated private key, RemoveBLSPublicKeys). "+
 		"Phase 1: every case under the real crypto/rand plus pks[i].Verify per index. Phase 2 (crypto/rand.Reader replaced by the harness): every correlated case that stands alone in S, "+
 		"for each of the 16 seed-byte positions k and 2 filler bytes, under a tape whose seeds differ pairwise in exactly byte k (never equal seeds); thorough also all other correlated cases under 4 tapes. "+
 		"Oracle per index: key not identity AND length 48 AND signature == canonical(sk_i*H(m)) (refbls, known discrete logs); the library's Verify must agree too. "+
